@@ -182,6 +182,141 @@ def over_fill_buf(term):
     return re.match(FILL_BUF_SLICE, base) is not None, enum
 
 
+def _cmp_body_edge(cond, var_rx, len_ok):
+    """cond = canonical text of a loop guard comparing the index variable with the slice length: -> "1"/"0", the switch value on which the
+    index is still below the length (the loop body), None when the condition is not such a comparison.  Accepted: i < n, n > i, i != n, n != i
+    and the negations i >= n, n <= i, i == n, n == i (also under Not(..))."""
+    neg = False
+    while True:
+        sp = split_term(cond)
+        if sp and not sp[2] and sp[0] == "Not" and len(sp[1]) == 1:
+            cond, neg = sp[1][0], not neg
+            continue
+        break
+    sp = split_term(cond)
+    if sp is None or sp[2] or len(sp[1]) != 2:
+        return None
+    op, (a, c) = sp[0], sp[1]
+    is_i = lambda t: re.fullmatch(var_rx, t) is not None
+    res = None
+    if is_i(a) and len_ok(c):
+        res = {"Lt": "1", "Ne": "1", "Ge": "0", "Eq": "0"}.get(op)
+    elif is_i(c) and len_ok(a):
+        res = {"Gt": "1", "Ne": "1", "Le": "0", "Eq": "0"}.get(op)
+    if res is None:
+        return None
+    return res if not neg else ("1" if res == "0" else "0")
+
+
+def _is_len_of_fill_buf(t):
+    m_ = re.fullmatch(r"(?:slice::len|\[T\]::len|PtrMetadata)\((.*)\)", t)
+    return m_ is not None and re.match(FILL_BUF_SLICE, strip_in_order(m_.group(1))[0]) is not None
+
+
+def indexed_traversals(b, cfg, loops):
+    """Explicit indexed traversals of fill_buf()'s slice S:  `i = 0; while i < S.len() { .. S[i] .. i += 1 .. }` (the length may be hoisted into
+    a local, the comparison written either way round).  Decided on facts, not on the loop syntax: the index variable is written only by one
+    `= 0` before the loop and one `+= 1` inside it (no nested loop, never borrowed mutably); every trip around the loop passes the increment;
+    the loop is left through the guard only when i == len; every read S[i] takes i on the body edge of the guard before the increment of that
+    trip.  Then trip k reads exactly S[k], k = 0, 1, ..: front to back, each byte at most once, all of them if the guard ends the loop.
+    -> list of feeds (dicts like the ones for `next()` loops) with ok=False when a hypothesis fails."""
+    groups = {}
+    for bb, si, s in b.assigns():
+        rv = s["rv"]
+        pl = rv["a"].get("place") if rv["k"] == "use" and rv["a"].get("k") in ("copy", "move") else rv.get("place") if rv["k"] in ("ref", "rawptr") else None
+        if not pl or not pl["p"] or pl["p"][-1]["k"] != "index" or any(e["k"] == "index" for e in pl["p"][:-1]):
+            continue
+        base = expr(b, {"k": "copy", "place": {"l": pl["l"], "p": pl["p"][:-1]}})
+        if re.match(FILL_BUF_SLICE, strip_in_order(base)[0]) is None:
+            continue
+        # the index temporary -> the variable it was copied from and where that copy was taken
+        l, pos, var = pl["p"][-1]["l"], None, None
+        for _ in range(8):
+            ds = b.defs_of(l)
+            if len(ds) != 1 or ds[0][1] == "term" or ds[0][2]["k"] != "use" or ds[0][2]["a"].get("k") not in ("copy", "move") or ds[0][2]["a"]["place"]["p"]:
+                break
+            m = ds[0][2]["a"]["place"]["l"]
+            if len(b.defs_of(m)) > 1:
+                var, pos = m, (ds[0][0], ds[0][1])
+                break
+            l = m
+        if var is None:
+            # `for i in 0..S.len() { .. S[i] .. }`: the index is the element of an in-order traversal of the range 0..len(S)
+            e = expr(b, {"k": "copy", "place": {"l": pl["p"][-1]["l"], "p": []}})
+            m = re.fullmatch(r"((?:\w+::)*next\((.*)\))@Some\.0", e)
+            rng = re.fullmatch(r"Range\{start: 0, end: (.*)\}", strip_in_order(m.group(2))[0]) if m else None
+            if rng is not None and _is_len_of_fill_buf(rng.group(1)):
+                var = ("range", m.group(2))
+        groups.setdefault(var, {"base": base, "reads": [], "temps": set()})
+        g = groups[var]
+        g["reads"].append(pos)
+        g["temps"].add(pl["p"][-1]["l"])
+        if g["base"] != base:
+            g["base"] = None
+    feeds = []
+    for var, g in groups.items():
+        feed = {"form": "indexed", "ok": False, "enum": False, "iter": "%s[%s]" % (g["base"], "var:%s" % b.varnames.get(var, "_%s" % var) if isinstance(var, int) else "?"),
+                "bb": None, "t": None, "temps": g["temps"], "base": g["base"], "var": var}
+        feeds.append(feed)
+        if var is None or g["base"] is None:
+            continue
+        if isinstance(var, tuple):
+            nxt = [(bb, t) for bb, t in b.calls() if t["args"] and (callee_name(t) or "").split("::")[-1] == "next" and expr(b, t["args"][0]) == var[1]]
+            if len(nxt) == 1:
+                feed.update({"form": "loop", "ok": True, "bb": nxt[0][0], "t": nxt[0][1], "iter": var[1], "index_of": g["base"]})
+            continue
+        nm = b.varnames.get(var, "_%d" % var)
+        inits, incs, ok = [], [], True
+        for bb, si, s in b.assigns():
+            rv = s["rv"]
+            if rv["k"] in ("ref", "rawptr") and rv["place"]["l"] == var and rv.get("mut", rv["k"] == "rawptr"):
+                ok = False
+            if s["place"]["l"] == var:
+                if s["place"]["p"]:
+                    ok = False
+                elif rv["k"] == "use" and op_const_int(rv["a"]) == 0:
+                    inits.append((bb, si))
+                elif rv["k"] == "use" and (is_increment_of(expr(b, rv["a"]), "var:%s" % nm) or is_increment_of(expr(b, rv["a"]), "_%d" % var)):
+                    incs.append((bb, si))
+                else:
+                    ok = False
+        if any(t["k"] == "call" and t["dest"]["l"] == var for bb, t in b.calls()):
+            ok = False
+        if not ok or len(inits) != 1 or len(incs) != 1:
+            continue
+        (ibb, isi), (cbb, csi) = inits[0], incs[0]
+        head = innermost_loop(loops, cbb)
+        if head is None or ibb in loops[head] or not cfg.dominates(ibb, head):
+            continue
+        region = loops[head]
+        var_rx = r"var:%s|_%d" % (re.escape(nm), var)
+        len_ok = _is_len_of_fill_buf
+        guard = None
+        for sb, t in b.terms():
+            if t["k"] != "switch" or sb not in region:
+                continue
+            v = _cmp_body_edge(expr(b, t["d"]), var_rx, len_ok)
+            if v is None:
+                continue
+            body_t, exit_t = bool_edges(t, negated=(v == "0"))
+            if body_t is None or exit_t is None or body_t not in region or exit_t in region:
+                continue
+            if cfg.edge_dominates(sb, body_t, cbb) and all(cfg.edge_dominates(sb, body_t, rbb) for rbb, _ in g["reads"]):
+                guard = (sb, body_t, exit_t) if guard is None else False
+        if not guard:
+            continue
+        sb, body_t, exit_t = guard
+        # the guard is evaluated before the increment of the same trip; every trip back to the loop head passes the increment
+        if sb in cfg.reachable_from(cbb, removed=[head]) or not cfg.must_pass([cbb], start=body_t, exits=[head])[0]:
+            continue
+        # reads take the index before the increment of their trip
+        after_inc = cfg.reachable_from(cbb, removed=[head])
+        if not all((rbb == cbb and rsi < csi) or (rbb != cbb and rbb not in after_inc) for rbb, rsi in g["reads"]) or not all(rbb in region for rbb, _ in g["reads"]):
+            continue
+        feed.update({"ok": True, "bb": sb, "guard": guard, "head": head, "inc": cbb, "read_bbs": [rbb for rbb, _ in g["reads"]]})
+    return feeds
+
+
 def is_increment_of(e, x, index_rx=None):
     """`x + 1` (either operand order); with index_rx (the 0-based position of the current byte in an `enumerate()`d whole-slice traversal) also
     `index + 1`: after the k-th byte both make the counter equal to k + 1"""
@@ -428,6 +563,10 @@ def run(ctx):
                 cdef, cagg = closure_literal(b, t["args"][-1])
                 feeds.append({"form": "internal", "bb": bb, "t": t, "iter": e0, "ok": okf and cdef is not None, "enum": enum, "closure": cdef, "agg": cagg,
                               "elem": INTERNAL_ITERATION[nm]})
+        ixf = indexed_traversals(b, cfg, loops)
+        # a next() over the positions 0..len(S) is not a traversal of S by itself: it counts as one through the reads S[position]
+        claimed = {f["bb"] for f in ixf if f.get("index_of") and f["ok"]}
+        feeds = [f for f in feeds if not (f["form"] == "loop" and f["bb"] in claimed)] + ixf
         okn = len(feeds) == 1 and feeds[0]["ok"]
         ctx.instance("FOLD", {"fn": path, "hyp": "fill_buf()'s slice is traversed front to back, once", "ok": okn, "form": feeds[0]["form"] if feeds else None,
                               "iter": feeds[0]["iter"][:120] if feeds else None})
@@ -447,7 +586,20 @@ def run(ctx):
             rb, rcfg, entry, exits, region = b, cfg, some_t, [head] + cfg.returns, loops[head]
             elem = r"(?:\w+::)*next\(%s\)@Some\.0%s" % (re.escape(feed["iter"]), r"\.1" if feed["enum"] else "")
             index_rx = r"(?:\w+::)*next\(%s\)@Some\.0\.0" % re.escape(feed["iter"]) if feed["enum"] else None
+            if feed.get("index_of"):
+                # the traversal yields positions 0, 1, .. of the slice: the byte is S[position]
+                index_rx = r"(?:\w+::)*next\(%s\)@Some\.0" % re.escape(feed["iter"])
+                elem = r"%s\[_(?:%s)\]" % (re.escape(feed["index_of"]), "|".join(str(x) for x in sorted(feed["temps"])))
             feed_bbs = None       # filled below with the step blocks
+        elif feed["form"] == "indexed":
+            # `while i < len { byte = S[i]; i += 1; .. }`: the per-byte region is the loop body entered on the guard's "i < len" edge
+            nbb = feed["bb"]
+            sw, some_t, none_t = feed["guard"]
+            head = feed["head"]
+            rb, rcfg, entry, exits, region = b, cfg, some_t, [head] + cfg.returns, loops[head]
+            elem = r"%s\[_(?:%s)\]" % (re.escape(feed["base"]), "|".join(str(x) for x in sorted(feed["temps"])))
+            index_rx = None
+            feed_bbs = None
         else:
             rb = inlined_keep(prog, feed["closure"], step_rx)
             if rb is None or rb.arg_count < feed["elem"]:
@@ -466,7 +618,10 @@ def run(ctx):
         if one_step:
             # not inside a loop nested in the region: one step per byte, not several
             h2 = innermost_loop(rcfg.loops(), steps[0][0])
-            one_step = (h2 == head) if feed["form"] == "loop" else (h2 is None)
+            one_step = (h2 == head) if feed["form"] in ("loop", "indexed") else (h2 is None)
+            if feed["form"] == "indexed":
+                # the byte handed over is the one read in this trip
+                byte_ok = byte_ok and all(cfg.dominates(rbb, steps[0][0]) for rbb in feed["read_bbs"])
         ctx.instance("FOLD", {"fn": path, "hyp": "exactly one step per byte, fed with the traversal's byte", "ok": byte_ok and one_step, "steps": len(steps)})
         # no further step call hides in another closure of the function (e.g. `.or_else(|| self.step(b))`)
         root = prog.body(path)
@@ -493,7 +648,7 @@ def run(ctx):
             ce = expr(b, ct["args"][1])
             m_len = re.fullmatch(r"(?:slice|Vec|\[T\])::len\((.*)\)", ce)
             whole = m_len is not None and re.match(FILL_BUF_SLICE, strip_in_order(m_len.group(1))[0]) is not None
-            if feed["form"] == "loop":
+            if feed["form"] in ("loop", "indexed"):
                 if index_rx is not None and is_increment_of(ce, "\0", index_rx):
                     return cfg.edge_dominates(sw, some_t, cbb)
                 return whole and cfg.edge_dominates(sw, none_t, cbb)
@@ -523,7 +678,7 @@ def run(ctx):
                         inits.append(i)
                     else:
                         e = expr(b, rv["a"]) if rv["k"] == "use" else rv["k"]
-                        if feed["form"] == "loop" and (is_increment_of(e, "var:%s" % nm, index_rx) or is_increment_of(e, "_%d" % cl)):
+                        if feed["form"] in ("loop", "indexed") and (is_increment_of(e, "var:%s" % nm, index_rx) or is_increment_of(e, "_%d" % cl)):
                             incs.append(i)
                         else:
                             okc = False
@@ -550,7 +705,7 @@ def run(ctx):
             if okc and steps:
                 # the increment happens once per byte (on the Some edge / in the closure, not in a nested loop) and precedes the step on every path
                 okc = rcfg.must_pass(incs, start=entry, exits=[steps[0][0]])[0]
-                if feed["form"] == "loop":
+                if feed["form"] in ("loop", "indexed"):
                     okc = okc and cfg.edge_dominates(sw, some_t, incs[0]) and innermost_loop(loops, incs[0]) == head
                 else:
                     okc = okc and innermost_loop(rcfg.loops(), incs[0]) is None
